@@ -308,6 +308,13 @@ func.func @f(%arg0 : {TA}, %arg1 : {TB}, %arg2 : {TD}) {{
 # ------------------------------------------------------------------ pipeline with observation points
 
 
+WARNED = []
+
+
+def compiler_warned_non_contiguous():
+    return any("Non-contiguous access detected" in str(w.message) for c in WARNED for w in c)
+
+
 def observe(src, acc_name, pre_passes, set_layout):
     from xdsl.parser import Parser
 
@@ -325,8 +332,10 @@ def observe(src, acc_name, pre_passes, set_layout):
     spec = [f"insert-accfg-op{{accelerator={acc_name}}}"] + list(pre_passes)
     if set_layout:
         spec.append("set-memory-layout" + ("{tiled=true}" if set_layout == "tiled" else "{tiled=false}" if set_layout == "flat" else ""))
-    with warnings.catch_warnings():
-        warnings.simplefilter("ignore")
+    del WARNED[:]
+    with warnings.catch_warnings(record=True) as caught:
+        warnings.simplefilter("always")
+        WARNED.append(caught)  # what the compiler tells its user while it compiles (read by the signature)
         xshim.apply_passes(m, ",".join(spec), main)
         S = [o for o in m.walk() if isinstance(o, dart.ScheduleOp)][0]
         sched = dict(bounds=[b.value.data for b in S.bounds.data],
@@ -566,6 +575,9 @@ def case_pipeline(case):
             s += "|bias_vector_broadcast_over_rows"
         if s.startswith("stream:") and info.get("inner_contiguous") is False:
             s += "|innermost_scheduled_dimension_not_the_contiguous_one"
+        if (s.startswith("stream:") or s.startswith("programmed:")) and compiler_warned_non_contiguous():
+            # the compiler went on after telling its user that the result will probably be incorrect
+            s += "|compiler_warned_non_contiguous_access"
         return s
 
     return run_case(fn, replay, signature=sig, sample=dict(case=str(case)[:300]), key=str(case), timeout_ms=20000)
@@ -643,6 +655,9 @@ def run(chk):
     cases.append(("gemmx", (8, 8, 4), False, ("strided<[8, 2]>", "strided<[2, 8]>", None), None))
     cases.append(("gemmx", (16, 8, 4), False, ("strided<[8, 2]>", "strided<[2, 8]>", None), None))
     cases.append(("gemmx", (8, 8, 2), False, ("strided<[8, 4]>", None, None), None))
+    # under-used arrays whose innermost runs are no whole number of banks (refused or right)
+    for shp in ((8, 3, 8), (8, 5, 8), (8, 6, 8), (8, 2, 8), (3, 8, 8), (8, 8, 3), (8, 1, 8), (8, 4, 4)):
+        cases.append(("gemmx", shp, False, (None, f"strided<[1, {shp[2]}]>", None), None))
     for n, pat, nb in ((16, "d0 mod 8", 8), (16, "d0 mod 4 + 2", 6), (64, "d0 floordiv 2", 32), (16, "d0 ceildiv 2", 9)):
         cases.append(("alu_nl", n, pat, nb))
     # operands that are tiles (subviews with run-time offsets) of larger tiled buffers: the stream's base pointer is the
